@@ -107,41 +107,6 @@ pub fn timestamp(delta: i32) -> (r: Result<i64, SystemTimeError>)
     ensures r matches Ok(t) ==> vclock() - delta < t <= vclock() + delta
 { unimplemented!() }
 
-// ---- aes_gcm::Aes128Gcm used directly (header sealing): AES-128-GCM = alg 0 of shims/crypto.rs
-pub struct GNonce { pub b: [u8; 12] }
-impl View for GNonce { type V = Seq<u8>; open spec fn view(&self) -> Seq<u8> { self.b@ } }
-impl vstd::std_specs::convert::FromSpecImpl<[u8; 12]> for GNonce {
-    open spec fn obeys_from_spec() -> bool { true }
-    open spec fn from_spec(v: [u8; 12]) -> Self { GNonce { b: v } }
-}
-impl core::convert::From<[u8; 12]> for GNonce {
-    fn from(v: [u8; 12]) -> (r: GNonce) { GNonce { b: v } }
-}
-pub struct Payload<'a, 'b> { pub msg: &'a [u8], pub aad: &'b [u8] }
-#[verifier::external_body]
-pub struct Aes128Gcm { _c: u8 }
-impl Aes128Gcm {
-    pub uninterp spec fn key(&self) -> Seq<u8>;
-    #[verifier::external_body]
-    pub fn new_from_slice(key: &[u8]) -> (r: Result<Aes128Gcm, InvalidLength>)
-        ensures (key@.len() == 16) == (r is Ok), r matches Ok(c) ==> c.key() == key@
-    { unimplemented!() }
-    #[verifier::external_body]
-    pub fn encrypt(&self, nonce: &GNonce, p: Payload) -> (r: Result<Vec<u8>, aead::Error>)
-        ensures r matches Ok(v) ==> v@ == aead_seal(0, self.key(), nonce@, norm_aad(p.aad@), p.msg@)
-    { unimplemented!() }
-    #[verifier::external_body]
-    pub fn decrypt(&self, nonce: &GNonce, p: Payload) -> (r: Result<Vec<u8>, aead::Error>)
-        ensures match aead_open(0, self.key(), nonce@, norm_aad(p.aad@), p.msg@) { Some(pt) => r matches Ok(v) && v@ == pt, None => r is Err }
-    { unimplemented!() }
-    #[verifier::external_body]
-    pub fn decrypt_in_place<B: Buffer>(&self, nonce: &GNonce, associated_data: &[u8], buffer: &mut B) -> (r: Result<(), aead::Error>)
-        ensures match aead_open(0, self.key(), nonce@, norm_aad(associated_data@), old(buffer).bview()) { Some(pt) => r is Ok && final(buffer).bview() == pt, None => r is Err }
-    { unimplemented!() }
-}
-pub broadcast proof fn lemma_path_view3(p: Seq<&[u8]>)
-    ensures p.len() == 3 ==> #[trigger] path_view(p) == seq![p[0]@, p[1]@, p[2]@]
-{ if p.len() == 3 { assert(path_view(p) =~= seq![p[0]@, p[1]@, p[2]@]); } }
 /// rand::rng().random_range(a..b) on u8 (the only use in the units: the VMess header padding length)
 pub mod rand {
     use vstd::prelude::*;
@@ -159,3 +124,7 @@ pub mod rand {
 }
 // (<[T]>::first: vstd's own specification is used)
 
+
+pub broadcast proof fn lemma_path_view3(p: Seq<&[u8]>)
+    ensures p.len() == 3 ==> #[trigger] path_view(p) == seq![p[0]@, p[1]@, p[2]@]
+{ if p.len() == 3 { assert(path_view(p) =~= seq![p[0]@, p[1]@, p[2]@]); } }
